@@ -734,7 +734,10 @@ def write_sm_case_st(draw, tier):
     from vlib.gen import sm as G
 
     sk = draw(G.mapset_strategy(tier, mode="snap", tempo="grid48", chart_types="writable", max_charts=2 if tier == "quick" else 3))
-    return dict(skeleton=sk, perm=draw(perm_st(("hits", "holds", "bpms", "other"))))
+    # stops (an "other" list of the chart): 0..3 on whole beats, distinct lengths, stored in a drawn order
+    beats = draw(st.lists(st.integers(0, 16), max_size=3, unique=True))
+    stops = [[b, [125.0, 250.0, 500.0][i]] for i, b in enumerate(beats)]
+    return dict(skeleton=sk, stops=stops, perm=draw(perm_st(("hits", "holds", "bpms", "other"))))
 
 
 def _sm_denotation(p):
@@ -754,11 +757,26 @@ def check_write_sm(case, ctx):
     from vlib.ref import sm as R
 
     sk, perm = case["skeleton"], case["perm"]
-    a, b, moved = pair(ctx, lambda: G.build(sk), perm)
+
+    def make():
+        ms = G.build(sk)
+        if case.get("stops"):
+            from reamber.sm.SMStop import SMStop
+            from reamber.sm.lists.SMStopList import SMStopList
+            from vlib.ref.timing import BeatTimeline
+
+            tl = BeatTimeline(float(sk["offset_ms"]), [(G.fr(b), float(v)) for b, v in sk["tempo"]])
+            for m in ms.maps:
+                m.stops = SMStopList([SMStop(tl.ms(b), ln) for b, ln in case["stops"]])
+        return ms
+
+    a, b, moved = pair(ctx, make, perm)
     ctx.nt(moved)
     ctx.label("tempo-reordered", _seq(a.maps[0].bpms) != _seq(b.maps[0].bpms))
     ctx.label(">=3-tempo-points", len(sk["tempo"]) >= 3)
     ctx.label(">=2-charts", len(sk["charts"]) >= 2)
+    ctx.label(">=2-stops", len(case.get("stops") or []) >= 2)
+    ctx.label("stops-reordered", _seq(a.maps[0].stops) != _seq(b.maps[0].stops))
     ok, ta = baseline(ctx, "sm.write", a.write)
     if not ok:
         ctx.exclude("baseline-raises:sm.write")
